@@ -29,7 +29,7 @@ for cid in ids:
     res[cid] = {"exit": rc, "violation_classes": classes if rc == 1 else [], "summary": last[0][:200]}
     print(name, cid, "exit", rc, (classes if rc == 1 else ""), last[0][:110])
 sh("git checkout -q -- .")
-d = os.path.join("/verif/benign", name); os.makedirs(d, exist_ok=True)
+d = os.path.join(os.environ.get("OUT_DIR", "/verif/benign"), name); os.makedirs(d, exist_ok=True)
 shutil.copy(patch, os.path.join(d, "patch.diff"))
 meta["checks"] = res; meta["repo_head"] = head
 json.dump(meta, open(os.path.join(d, "meta.json"), "w"), indent=1)
